@@ -241,39 +241,47 @@ def collapse : List Item → Item
   | l => .coll false (Items.ofList l)
 
 mutual
-/-- C01's normal form: nil-like values are nothing, struct values come back as pointers, instants are
+/-- The normal form, with `e` saying whether the value went through the ENCODER (C01: a lone language
+value is written collapsed and returns untagged) or was only DECODED from a document (C05: the tag the
+document gives is kept): nil-like values are nothing, struct values come back as pointers, instants are
 UTC whole seconds, a lone language value is untagged, a list in a single-item position collapses. -/
-def normJ : Item → Item
+def normX (e : Bool) : Item → Item
   | .nil => .nil
   | .typedNil _ => .nil
   | .collNil _ => .nil
   | .irisNil => .nil
   | .iri s => .iri s
   | .iris l => collapse (l.map .iri)
-  | .coll _ l => collapse (normJItems l)
-  | .node k _ fs => .node k true (normJFields fs)
-def normJItems : Items → List Item
+  | .coll _ l => collapse (normXItems e l)
+  | .node k _ fs => .node k true (normXFields e fs)
+def normXItems (e : Bool) : Items → List Item
   | .nil => []
-  | .cons i r => let n := normJ i; if isNilItem n then normJItems r else n :: normJItems r
-def normJFields : Fields → Fields
+  | .cons i r => let n := normX e i; if isNilItem n then normXItems e r else n :: normXItems e r
+def normXFields (e : Bool) : Fields → Fields
   | .nil => .nil
-  | .cons n v r => match normJVal v with
-    | some v' => .cons n v' (normJFields r)
-    | none => normJFields r
-def normJVal : FVal → Option FVal
-  | .item i => let n := normJ i; if isNilItem n then none else some (.item n)
-  | .items l => match normJItems l with
+  | .cons n v r => match normXVal e v with
+    | some v' => .cons n v' (normXFields e r)
+    | none => normXFields e r
+def normXVal (e : Bool) : FVal → Option FVal
+  | .item i => let n := normX e i; if isNilItem n then none else some (.item n)
+  | .items l => match normXItems e l with
     | [] => none
     | l' => some (.items (Items.ofList l'))
   | .nlv [] => none
-  | .nlv [(_, v)] => some (.nlv [(dash, v)])
+  | .nlv [(t, v)] => some (.nlv [(if e then dash else t, v)])
   | .nlv n => some (.nlv n)
   | .time s _ _ => some (.time s 0 0)
-  | .record fs => match normJFields fs with
+  | .record fs => match normXFields e fs with
     | .nil => none
     | fs' => some (.record fs')
   | v => some v
 end
+
+
+/-- C01's normal form (encode, then decode) -/
+abbrev normJ : Item → Item := normX true
+/-- C05's normal form of what a document says (decode only) -/
+abbrev normD : Item → Item := normX false
 
 mutual
 /-- C03's normal form: only nil-like/empty values are nothing and struct values come back as pointers. -/
